@@ -139,6 +139,23 @@ def split_impl(s: str):
     return body, "", idx
 
 
+def _atoms(items: str):
+    """report items -> set of atoms: an import, or one (subject, object) pair of a 'does not import' line (Bridge/Abs.lean: Item.atoms)"""
+    out = set()
+    for it in items.split(";"):
+        if not it:
+            continue
+        f = it.split("|")
+        if f[0] == "imp":
+            out.add(("imp", f[1], f[2]))
+        elif f[0] == "miss":
+            for o in f[3].split(","):
+                out.add(("miss", f[1], f[2], o))
+        else:
+            out.add(tuple(f))
+    return out
+
+
 def split_model(v: str):
     if v.startswith("FAIL:"):
         return "FAIL", v[5:]
@@ -208,7 +225,14 @@ def judge_rule_stream(ctx: Ctx, stream: Stream, results, aspect: str, whole_spac
         sp = case.get("spec") or {}
         plain_named = bool(sp) and sp.get("sx") == "0" and sp.get("sv") in ("should", "not") and sp.get("sa") != "1" \
             and all(k == "N" for k, _ in sp.get("ss", []) + sp.get("so", []))
-        in_domain = dom == "wsn" or (plain_named and len(dom) == 3 and dom[0] == "w" and dom[2] == "n")
+        exact_dom = dom[:3] == "wsn" or (plain_named and len(dom) >= 3 and dom[0] == "w" and dom[2] == "n")
+        # the widest oracle domain (Pta.C01.verdict_spec_parentFree / report_spec_parentFree): related names allowed; there the
+        # report is compared as a set of ATOMS (imports, and (subject, object) pairs of 'does not import' lines)
+        wide_dom = len(dom) >= 4 and dom[0] == "w" and dom[2] == "n" and dom[3] == "p"
+        in_domain = exact_dom or wide_dom
+
+        def same_report(x, y, exact=exact_dom):
+            return x == y if exact else _atoms(x) == _atoms(y)
         stream.count(f"impl:{icls.split(':')[0]}")
         stream.count("in-domain" if in_domain else "out-of-domain")
         if nontrivial(case) and in_domain:
@@ -217,7 +241,7 @@ def judge_rule_stream(ctx: Ctx, stream: Stream, results, aspect: str, whole_spac
             ctx.samples.append({"line": gen.rule_line(case), "impl": impl, "model": ans})
 
         # 1. the theorem's statement, re-evaluated: M = S on the domain (sanity of my own machinery)
-        if in_domain and (mcls != scls or (mcls == "FAIL" and mitems != sitems)):
+        if in_domain and (mcls != scls or (mcls == "FAIL" and not same_report(mitems, sitems))):
             from .core import InfraError
 
             raise InfraError(f"model and specification disagree inside the domain (theorem statement wrong?): {gen.rule_line(case)} -> {ans}")
@@ -228,7 +252,7 @@ def judge_rule_stream(ctx: Ctx, stream: Stream, results, aspect: str, whole_spac
             if aspect == "verdict":
                 prop_fails = icls != scls
             else:
-                prop_fails = icls == "FAIL" and scls == "FAIL" and iitems != sitems
+                prop_fails = icls == "FAIL" and scls == "FAIL" and not same_report(iitems, sitems)
         if prop_fails:
             def still_fails(c, aspect=aspect):
                 (c2, i2, a2), = evaluate(Ctx(ctx.prop, ctx.tier, ctx.seed, jobs=1), [c])
@@ -236,7 +260,7 @@ def judge_rule_stream(ctx: Ctx, stream: Stream, results, aspect: str, whole_spac
                     return False
                 ic, ii, _ = split_impl(i2)
                 sc, si = split_model(a2.get("S", "NA"))
-                return ic != sc if aspect == "verdict" else (ic == "FAIL" and sc == "FAIL" and ii != si)
+                return ic != sc if aspect == "verdict" else (ic == "FAIL" and sc == "FAIL" and not same_report(ii, si))
 
             small = shrink_rule_case(case, still_fails)
             (c2, i2, a2), = evaluate(Ctx(ctx.prop, ctx.tier, ctx.seed, jobs=1), [small])
